@@ -310,6 +310,24 @@ def check_case(case, ev=None, scratch=None):
                 des = [r for (op, r) in out["log"] if op == "de"]
                 if any(r != ref for r in des if r.startswith("user.moon") or r in ("user.sun", "user.galaxy_parts")) or (phase == "read" and ref not in des):
                     raise Violation(f"{what}: the value written by codec {ref} was decoded by {des}", case)
+        # a frame is also read by a real fresh interpreter that imports nothing but dds (pandas is not loaded before dds looks for a codec)
+        if case["value"]["k"] == "frame" and case["store"] in ("local", "local-lru") and not case["reader"]:
+            import subprocess
+            import sys
+
+            script = ("import json, sys\nimport dds\n"
+                      f"dds.set_store('local', internal_dir={os.path.join(store_dir, 'internal')!r}, data_dir={os.path.join(store_dir, 'data')!r})\n"
+                      "v = dds.load('/out/v')\n"
+                      "print(json.dumps({'type': type(v).__name__, 'frame': v.to_json(orient='split') if hasattr(v, 'to_json') else repr(v)}))\n")
+            env = dict(os.environ)
+            env["PYTHONPATH"] = common.REPO
+            pr = subprocess.run([sys.executable, "-W", "ignore", "-c", script], env=env, cwd=root, stdout=subprocess.PIPE, stderr=subprocess.PIPE)
+            if pr.returncode != 0:
+                raise Violation(f"{what}: a fresh interpreter that only imports dds cannot load the frame: {pr.stderr.decode()[-400:]}", case)
+            got = json.loads(pr.stdout.decode().strip().splitlines()[-1])
+            want = build_value(case["value"])
+            if got["type"] != "DataFrame" or json.loads(got["frame"]) != json.loads(want.to_json(orient="split")):
+                raise Violation(f"{what}: a fresh interpreter that only imports dds loads {got['type']} {got['frame'][:200]}", case)
         # verbatim files
         k = case["value"]["k"]
         if k in ("str", "bytes", "bytearray") and not case.get("orphan"):
